@@ -13,7 +13,6 @@ import (
 	"sync"
 	"sync/atomic"
 	"testing"
-	"time"
 
 	"github.com/aperturerobotics/util/broadcast"
 	"github.com/aperturerobotics/util/ccontainer"
@@ -527,9 +526,7 @@ func TestC09Free(t *testing.T) {
 			})
 			stopGC.Store(true)
 			gwg.Wait()
-			wctx, wcancel := context.WithTimeout(context.Background(), 20*time.Second)
-			final, fref, err := rc.Wait(wctx)
-			wcancel()
+			final, fref, err := rc.Wait(context.Background())
 			if err != nil {
 				f.add("C09", "refcount:no-final-value", "Wait after the last context change returned %v", err)
 				return
